@@ -556,7 +556,7 @@ static int st_apply(uint32_t op, int audit)
         default: return 0;
         }
         /* chosen non-zero stop values of both signs */
-        w.stop_val = (pos & 1) ? -(3 + pos) : 7 + pos;
+        w.stop_val = vrt_stop_value((unsigned)pos * 31u + 5u * vrt_case_tick());
         snapshot(l1, dir);
         vrt_state(flav == FE_PLAIN ? "plain" : flav == FE_STOP ? "early-stop" :
                   flav == FE_ERASE_ONE ? "visitor-erases-one" : flav == FE_ERASE_ALL ? "visitor-erases-all" : "visitor-erases-and-stops");
